@@ -1108,6 +1108,17 @@ class _Canon(ast.NodeTransformer):
                     return ast.copy_location(ast.Expr(value=call), n)
         return n
 
+    def visit_Expr(self, n):
+        self.generic_visit(n)
+        # P30: setattr(o, 'name', v) as a statement -> o.name = v   (constant identifier, not a dunder: hooks installed on classes keep their form)
+        c = n.value
+        if isinstance(c, ast.Call) and isinstance(c.func, ast.Name) and c.func.id == "setattr" and len(c.args) == 3 and not c.keywords \
+                and isinstance(c.args[1], ast.Constant) and isinstance(c.args[1].value, str) and c.args[1].value.isidentifier() and not c.args[1].value.startswith("__"):
+            self.count += 1
+            tgt = ast.Attribute(value=c.args[0], attr=c.args[1].value, ctx=ast.Store())
+            return ast.copy_location(ast.Assign(targets=[ast.copy_location(tgt, n)], value=c.args[2], lineno=n.lineno), n)
+        return n
+
     def visit_Call(self, n):
         self.generic_visit(n)
         # P15: (A if c else B)(args) -> A(args) if c else B(args)
